@@ -50,6 +50,9 @@ def make_case(rng, cid, nblocks, thorough_pair=None):
                     addr = b'\x20' + addr[1:]
                 L = 32 if fam == 4 else 128
                 plen = rng.choice([255, 255, L, rng.randrange(0, L + 1), rng.choice([7, 8, 9, 15, 16, 17, 23, 24, 25, 28, 31])]) if which == 'cl' else 255
+                if fam == 6 and which == 'cl' and rng.random() < 0.25 and not thorough_pair:
+                    # IPv6 entries that cover the IPv4-mapped range: an IPv4 peer seen as ::ffff:a.b.c.d must NOT match them
+                    addr, plen = rng.choice([(b'\0' * 16, 0), (b'\0' * 10 + b'\xff\xff' + b'\0' * 4, 96), (b'\0' * 10 + b'\xff\xff' + rbytes(rng, 4), 255), (b'\0' * 10 + b'\xff\xff' + rbytes(rng, 4), 128)])
                 if thorough_pair and which == 'cl' and i == 0 and not hosts:
                     fam, plen = thorough_pair
                     addr = rbytes(rng, 4 if fam == 4 else 16)
@@ -86,6 +89,10 @@ def make_case(rng, cid, nblocks, thorough_pair=None):
                 ops.append('op addr %s %d 6 %s %d' % (which, typ, hx(b'\0' * 12 + a), port or 1812))
             else:
                 ops.append('op addr %s %d 4 %s %d' % (which, typ, hx(a[:4]), port or 1812))
+        if fam == 6 and addr[:10] == b'\0' * 10:
+            for v4 in [addr[12:], rbytes(rng, 4)] + [e[2][1] for e in entries if e[2][0] == 4][:3]:
+                for t in (typ, 2 - typ):
+                    ops.append('op addr %s %d 6 %s %d' % (which, t, hx(b'\0' * 10 + b'\xff\xff' + v4), port or 1812))
     return (cid, ['conf ' + x for x in conf] + cfg + ops)
 
 def generate(rng, tier):
